@@ -1128,8 +1128,18 @@ func callBuiltin(caller *frame, callpos token.Pos, fn *ssa.Builtin, args []value
 		case *amap:
 			m.clear()
 		case []value:
+			var et types.Type
+			if sig, ok := fn.Type().(*types.Signature); ok && sig.Params().Len() == 1 {
+				if sl, ok := sig.Params().At(0).Type().Underlying().(*types.Slice); ok {
+					et = sl.Elem()
+				}
+			}
 			for i := range m {
-				m[i] = zeroLike(m[i])
+				if et != nil {
+					m[i] = zero(et)
+				} else {
+					m[i] = zeroLike(m[i])
+				}
 			}
 		default:
 			panic(fmt.Sprintf("clear: illegal operand: %T", m))
